@@ -16,6 +16,8 @@ T = "grin_core::core::transaction::"
 
 
 def run(c):
+    import r9
+    c.r9("C14")
     # --- who may touch Pool::entries
     c.r3_field("entries-writers", "grin_pool::pool::Pool", "entries", {
         PL + "add_to_pool": {"Vec::push"},
